@@ -350,7 +350,9 @@ impl StreamFault {
                     Ok(Ok(())) => Some(Violation::new(prop, clause, tn, format!("{} after {} of {} bytes: serialize of {} returned Ok ({} bytes reached the sink)", what, k, bytes.len(), desc(), w.position()))),
                     Ok(Err(_)) if w.stats.exceeded_cap => Some(Violation::new(prop, "no-progress", tn, format!("{} after {} bytes: serialize of {} kept calling write ({} calls)", what, k, desc(), w.stats.calls))),
                     Ok(Err(e)) => {
-                        if self.clause == FaultClause::SerErr && !(is_injected(&e) && e.kind() == self.kind.to_io()) {
+                        // "returns that error": the kind must survive; wrapping the error with context is fine.
+                        stats.probe_if(self.clause == FaultClause::SerErr && !is_injected(&e), "injected error came back wrapped");
+                        if self.clause == FaultClause::SerErr && e.kind() != self.kind.to_io() {
                             Some(Violation::new(prop, "ser-err-kind", tn, format!("sink failed with {:?} after {} bytes; serialize of {} returned a different error: {:?} {}", self.kind, k, desc(), e.kind(), e)))
                         } else { None }
                     },
